@@ -774,7 +774,10 @@ std::string unitVar(Session<I> const& s, std::vector<std::size_t> const& sizes){
 	if(sk.isNormalized() != s.k->isNormalized() && sk.isNormalized()) out += s.claimOracle(sk);
 	UnlabeledData<I> data(s.dataset(0, sizes));
 	NormalizeKernelUnitVariance<I> trainer;
-	trainer.train(sk, data);
+	// degenerate data (zero variance in feature space) is the trainer's precondition: since /repo 7cd73391 the
+	// library rejects it with its exception type (before: factor 1/0 = inf); both are "nothing to check" here
+	try{ trainer.train(sk, data); }
+	catch(shark::Exception const&){ return out; }
 	double f = sk.factor();
 	if(!(f > 0) || !std::isfinite(f)) return out;      // degenerate data (zero variance in feature space): precondition of the trainer
 	out += s.claimOracle(sk);
